@@ -55,6 +55,10 @@ def formula(t):
                     return tr
         if op in ('is', 'is not') and (b == NONE or a == NONE):
             x = a if b == NONE else b
+            if x[0] == 'sub' and x[1][0] == 'dictcomp':
+                # value looked up (with .get) in a dictionary built by a comprehension: absent key, not a None value
+                f = neg(('atom', ('in', x[2], x[1])))
+                return f if op == 'is' else neg(f)
             f = ('atom', ('isnone', x))
             return f if op == 'is' else neg(f)
         if op in ('==', '!='):
